@@ -157,11 +157,12 @@ Fixpoint aset (d : list (Z * Z)) (k : Z) (v : Z) : list (Z * Z) :=
   | (k', v') :: t => if k' =? k then (k, v) :: t else (k', v') :: aset t k v
   end.
 
+(* i_ntok = info_dict["total_tokens"], -1 while the key is absent (the counts are never negative) *)
 Record iacc := mkAcc
   { i_frames : Z; i_nf : option nat; i_maxali : Z; i_maxref : Z; i_ntok : Z;
     i_counts : list (Z * Z); i_segs : list (Z * Z);
     i_rcounts : list (Z * Z); i_rsegs : list (Z * Z) }.
-Definition acc0 := mkAcc 0 None (-1) (-1) 0 [] [] [] [].
+Definition acc0 := mkAcc 0 None (-1) (-1) (-1) [] [] [] [].
 
 (* ---- features *)
 Definition feat_part (validate : bool) (fx : option Z) (st : vstate) (f : feat)
@@ -302,9 +303,9 @@ Fixpoint ref_info_rows (info : bool) (acc : iacc) (rows : list row) : exn + iacc
       if tok <? 0 then inl ValueErr
       else if info then
         let rc := aget (i_rcounts acc) tok 0 in
-        let rc' := if (rc >=? 0) && (e >? s) && (s >=? 0) then rc + e - s else -1 in
+        let rc' := if (rc >=? 0) && (e >=? s) && (s >=? 0) then rc + e - s else -1 in   (* /repo 518042e *)
         ref_info_rows info
-          (mkAcc (i_frames acc) (i_nf acc) (i_maxali acc) (Z.max (i_maxref acc) tok) (i_ntok acc + 1)
+          (mkAcc (i_frames acc) (i_nf acc) (i_maxali acc) (Z.max (i_maxref acc) tok) (Z.max 0 (i_ntok acc) + 1)
                  (i_counts acc) (i_segs acc)
                  (aset (i_rcounts acc) tok rc')
                  (aset (i_rsegs acc) tok (aget (i_rsegs acc) tok 0 + 1))) t
@@ -327,9 +328,14 @@ Definition step_utt (info validate : bool) (c : cfg) (fx : option Z)
         | inl e => (u, inl e)
         | inr (f', T, F, st1) =>
             let u1 := mkUtt f' (u_ali u) (u_ref u) in
+            (* info_dict["num_filts"] = F; total_frames += T; and, for a stored reference,
+               info_dict.setdefault("total_tokens", 0) (/repo 9974b4d).  The code does the latter at the top of
+               the reference block; it is done here, in the same "if info", because nothing reads the key in
+               between and the accumulators are dropped when anything raises. *)
             let acc1 := if info
                         then mkAcc (i_frames acc + Z.of_nat T) (Some F) (i_maxali acc) (i_maxref acc)
-                                   (i_ntok acc) (i_counts acc) (i_segs acc) (i_rcounts acc) (i_rsegs acc)
+                                   (if is_some (u_ref u) then Z.max 0 (i_ntok acc) else i_ntok acc)
+                                   (i_counts acc) (i_segs acc) (i_rcounts acc) (i_rsegs acc)
                         else acc in
             match (match u_ali u with
                    | None => inr (None, acc1)
@@ -405,7 +411,7 @@ Definition finish (n : nat) (acc : iacc) : report :=
   mkReport (Z.of_nat n) (i_frames acc)
     (match i_nf acc with Some F => Some (Z.of_nat F) | None => None end)
     (i_maxali acc) (i_maxref acc)
-    (if i_ntok acc =? 0 then -1 else i_ntok acc)          (* setdefault("total_tokens", -1) *)
+    (i_ntok acc)                                          (* setdefault("total_tokens", -1) *)
     (map (fun i => (aget (i_counts acc) i 0, aget (i_segs acc) i 0)) (zrange (i_maxali acc + 1)))
     (map (fun i => (aget (i_rcounts acc) i (-1), aget (i_rsegs acc) i 0)) (zrange (i_maxref acc + 1))).
 
